@@ -18,7 +18,7 @@ from concurrent.futures import ThreadPoolExecutor
 
 import vlib
 
-TOMB_ACTIONS = ['Begin', 'Copy', 'Flush', 'Fsync', 'Rename', 'SyncDir', 'Apply', 'CrashReopen', 'Reopen']
+TOMB_ACTIONS = [ 'Copy', 'Flush', 'Fsync', 'Rename', 'SyncDir', 'Apply', 'CrashReopen', 'Reopen']
 
 
 def emitted(stdout):
@@ -87,11 +87,12 @@ def run(ctx):
         return
 
     to = 2400 if thorough else 1500
-    with ThreadPoolExecutor(max_workers=3) as ex:
-        f_mc = ex.submit(ctx.tlc, 'TSMFile', f'TSMFile.MC_{tier}.cfg', timeout=to, coverage=True, workers=6, tag='MC')
-        f_gen = ex.submit(ctx.tlc, 'TSMFile', f'TSMFile.Gen_{tier}.cfg', timeout=to, workers=2, tag='Gen')
-        f_sim = ex.submit(tlc_sim, ctx, 'TSMFile', f'TSMFile.Sim_{tier}.cfg', 100 if not thorough else 1500,
-                          60, 4, 900 if thorough else 600, 'Sim')
+    w = max(1, min(4, vlib.NCPU))
+    with ThreadPoolExecutor(max_workers=max(1, min(3, vlib.NCPU // 4))) as ex:
+        f_mc = ex.submit(ctx.tlc, 'TSMFile', f'TSMFile.MC_{tier}.cfg', timeout=to, coverage=True, workers=w, tag='MC')
+        f_gen = ex.submit(ctx.tlc, 'TSMFile', f'TSMFile.Gen_{tier}.cfg', timeout=to, workers=min(2, w), tag='Gen')
+        f_sim = ex.submit(tlc_sim, ctx, 'TSMFile', f'TSMFile.Sim_{tier}.cfg', (100 if not thorough else 1500) * 4 // w,
+                          60, w, 900 if thorough else 600, 'Sim')
         mc, gen, behaviours = f_mc.result(), f_gen.result(), f_sim.result()
 
     # 1. the contract on the model (every pair of deletes, crash at every commit point)
@@ -99,6 +100,10 @@ def run(ctx):
         raise vlib.Inconclusive(f'TLC did not pass on TSMFile.MC_{tier}.cfg: violated={mc.violated} timeout={mc.timed_out}\n'
                                 + '\n'.join(mc.stdout.splitlines()[-30:]))
     ctx.check_coverage(mc, TOMB_ACTIONS)
+    # TLC prints this disjunct as "<BeginAny line .. of module TSMFile (l c l c)>: d:g", which the shared parser skips
+    nbegin = sum(int(m.group(2)) for m in re.finditer(r'<(BeginAny|Begin) line [^>]*>: \d+:(\d+)', mc.stdout))
+    if nbegin == 0:
+        raise vlib.Inconclusive('vacuity guard: action Begin never taken in TLC run')
 
     # 2. pristine files: the state is the case
     if gen.timed_out or not gen.ok:
